@@ -10,6 +10,8 @@ CONSTANTS
   Plus = "add"
   Times = "mul"
   LeafKind = "lin"
+  CopyCap = 99
+  ElimAll = FALSE
   Param = FALSE
   Tag = "sp_addmul"
 INVARIANT Inv_OracleInputs
